@@ -445,10 +445,6 @@ Proof.
   - intros E. revert E. apply (postL_inv orig (invL orig) (invL orig)); [|exact H1].
     eapply specR_spec; [apply CL_rel|apply err_L].
 Qed.
-Lemma bind_ok {A B} (m : PM A) (f : A -> PM B) s r s' :
-  p_bind m f s = POk (r, s') -> exists a s1, m s = POk (a, s1) /\ f a s1 = POk (r, s').
-Proof. unfold p_bind. destruct (m s) as [[a s1]| |]; try discriminate. eauto. Qed.
-
 (* ---- ty::parse *)
 Lemma wrap_node_L orig cp k : spec (CL orig) (p_wrap_node cp k).
 Proof.
